@@ -1,6 +1,7 @@
 """C05 (partial): every trie operation routes every TrieStorage variant to a back end of the same
 strategy that consumes the key; create_storage maps each strategy to its storage; num_keys is
 maintained only by insert/remove/clear."""
+from vlib import fixtures
 from rules import variant
 from vlib.mir import Fn, op_place, rv_operands
 from vlib.run import Broken
@@ -14,6 +15,7 @@ OPS = ("::insert", "::contains", "::remove", "::keys", "::keys_with_prefix",
 
 def run(ctx):
     fx = ctx.facts("default")
+    fixtures.run(ctx, ['variant'])
     ops = variant.run(ctx, fx, FILE, ENUM, "ZiporaTrie::storage",
                       only=lambda fid: any(fid.endswith(o) for o in OPS))
     ctx.floor("R-VARIANT.operations", 8)
